@@ -52,20 +52,29 @@
 // st.Excluded; random runs with a single selecting goroutine). If a probe no longer reproduces,
 // or VERIF_C13_ASSUME_FIXED is set, nothing is excluded.
 //
-// Sensitivity (scratch worktree with the three fixes applied, ASSUME_FIXED=1, quick tier,
-// all caught = exit 1):
+// Sensitivity (scratch worktree = pinned tree + the three proposed fixes, quick tier, seeds 0..3;
+// every mutant below made ./check C13 exit 1; in brackets the failure signatures seen):
 //
-//	M1 rr Select idx%n -> idx%(n+1)                         panic (index out of range)
-//	M1b rr Select idx%n -> idx%(n-1) for n>1                rotation
-//	M2 rr/modhash/random/conhash Remove: no delete(mapValues) rotation / spurious-error
-//	M3 BuildStaticWeightList "/ maxWeight" -> "/ minWeight" weight-cycle + weightlist
-//	M4 modhash Remove without reBuildLocked (stale weight list) panic / membership
-//	M5 rr addLocked without the already-exists check         rotation (dup-host class)
-//	M6 conhash Remove deletes only 3 of the 4 ketama points  membership
-//	M7 random Remove: element not cut out of the list        membership
-//	M8 conhash Refresh without resetting hashRing            membership
-//	M9 rr Select without RLock (concurrent unit)             data-race
-//	reverts of the fixes (= unchanged tree with ASSUME_FIXED=1): panic, panic, data-race
+//	M1   rr Select idx%n -> idx%(n+1)                              [panic]
+//	M1b  rr Select idx%n -> idx%(n-1) for n>1                      [rotation]
+//	M2   Remove without delete(mapValues): rr                      [rotation / weight-cycle / spurious-error]
+//	     ... modhash, random, conhash                              [spurious-error]
+//	M3   BuildStaticWeightList "/ maxWeight" -> "/ minWeight"      [weight-cycle (machine+weightlist), panic]
+//	M4   modhash Remove without reBuildLocked (stale weight list)  [panic]
+//	M5   rr addLocked without the already-exists check             [rotation / weight-cycle, concurrent membership]
+//	M6   conhash Remove deletes only 3 of the 4 ketama points      [membership (machine+concurrent)]
+//	M7   random Remove leaves the element in the list              [membership]
+//	M8   conhash Refresh does not reset hashRing                   [membership, only after a later Remove]
+//	M9   rr Select without RLock                                   [concurrent panic / data-race]
+//	M10  weight range cap 100 removed                              [weight-cycle]
+//	M11  endpoints whose scaled weight is 0 dropped from the cycle [weight-cycle]
+//	M14  modhash Select hash%n -> hash%(n+1)                       [panic]
+//	M16  modhash Remove under RLock instead of Lock                [data-race / concurrent panic]
+//	M17  rr Refresh does not reset the endpoint list               [membership]
+//	reverts of the three fixes (= pinned tree with VERIF_C13_ASSUME_FIXED=1): [panic, panic, data-race],
+//	     found by the generators as well as by the pinned cases
+//	not killed, equivalent w.r.t. the property: conhash weight()>0 -> >=0 (a zero-weight endpoint
+//	     gets one ring round; the property only says when an error is *allowed*)
 package c13
 
 import (
